@@ -398,3 +398,9 @@ def replay_case(suite, desc):
     res = coqrun.eval_cases("C05_replay", X.IMPORTS, X.CHK_HIST, [c.term])
     print("now:", res)
     return bool(res["propfail"] or res["errors"])
+
+
+def shrink(suite, desc):
+    if suite == "coilwords":
+        return None
+    return X.shrink_history("C05", desc)
